@@ -546,6 +546,12 @@ func oracleC04(r *OpRun) {
 							}
 						}
 					}
+					// a Synchronization is delivered once per binding: the same one again in the next
+					// execution of the queue is a re-run of the dropped task
+					if same && len(x.Ctxs) == 1 && x.Ctxs[0].Type == "Synchronization" && len(next.Ctxs) >= 1 && next.Ctxs[0].Type == "Synchronization" && next.Ctxs[0].Binding == x.Ctxs[0].Binding {
+						r.e.Viol("C04", "F4", "allowFailure-synchronization-retried", "queue %q: failed Synchronization #%d of %s/%s (allowFailure) was run again as #%d", q, x.N, x.Hook, x.Ctxs[0].Binding, next.N)
+						same = false
+					}
 					// identical identities can only mean a re-run when they carry a resource version
 					// (with keepFullObjectsInMemory=false an Event context names no object at all)
 					for _, c := range x.Ctxs {
@@ -640,6 +646,47 @@ func oracleC07op(r *OpRun) {
 			}
 			if !ok {
 				r.e.Viol("C07", "M5", "merged-contexts-lost-on-retry", "queue %q: merged execution #%d of %s received {%s} and failed; the retry #%d of %s received {%s}", q, x.N, x.Hook, strings.Join(ids, "; "), next.N, next.Hook, strings.Join(nids, "; "))
+			}
+		}
+	}
+}
+
+// oracleC07sync (M6): merging never swallows contexts. Every kubernetes binding with a Synchronization
+// to deliver receives it - as its own Synchronization context or, for a grouped binding, as a Group
+// context of its group - in some successful execution, also when the task in front of it in the queue
+// belongs to a binding whose Synchronization is not executed. Bindings whose Synchronization was part of
+// a failed execution are left to C04.
+func oracleC07sync(r *OpRun) {
+	if !r.quiet {
+		return
+	}
+	for _, h := range r.sc.Hooks {
+		if len(h.Kube) < 2 {
+			continue
+		}
+		for _, b := range h.Kube {
+			if b.NoSync {
+				continue
+			}
+			delivered, failed := false, false
+			for _, x := range r.o.Execs {
+				if x.Hook != h.Path {
+					continue
+				}
+				for _, c := range x.Ctxs {
+					mine := (c.Type == "Synchronization" && c.Binding == b.Name) || (b.Group != "" && c.Type == "Group" && fmt.Sprint(c.Raw["groupName"]) == b.Group)
+					if !mine {
+						continue
+					}
+					if x.Fail || x.EndSeq == 0 {
+						failed = true
+					} else {
+						delivered = true
+					}
+				}
+			}
+			if !delivered && !failed {
+				r.e.Viol("C07", "M6", "synchronization-context-lost", "hook %s: binding %s never received its Synchronization (as %s), although no execution carrying it failed", h.Path, b.Name, map[bool]string{true: "a Group context of group " + b.Group, false: "a Synchronization context"}[b.Group != ""])
 			}
 		}
 	}
@@ -807,6 +854,69 @@ func oracleC06(r *OpRun) {
 				if sx := firstSched[h.Path]; sx != nil && sx.StartSeq < syncOK[p][0].EndSeq {
 					r.e.Viol("C06", "U5", "schedule-before-synchronization", "hook %s: Schedule execution #%d started before Synchronization of %s (#%d) completed", h.Path, sx.N, b.Name, syncOK[p][0].N)
 				}
+			}
+		}
+	}
+	// U7: the bindings of one group share ONE Group execution for their Synchronization. Events are
+	// buffered until a binding is unlocked, and the shared execution unlocks all members together, so
+	// before the last member is unlocked exactly one successful Group execution of that group can start.
+	for _, h := range r.sc.Hooks {
+		groups := map[string][]string{}
+		for _, b := range h.Kube {
+			if b.Group != "" {
+				groups[b.Group] = append(groups[b.Group], b.Name)
+			}
+		}
+		for g, members := range groups {
+			if len(members) < 2 {
+				continue
+			}
+			ok := true
+			lastUnlock := int64(0)
+			for _, m := range members {
+				b := r.sc.bind(h.Path, m)
+				if b == nil || b.Kube == nil || b.Kube.NoSync {
+					ok = false
+					break
+				}
+				first := int64(1 << 62)
+				for _, ri := range r.obs.ByMonitor(r.monitorOf(h.Path, m)) {
+					for _, u := range ri.Unlocks {
+						if u < first {
+							first = u
+						}
+					}
+				}
+				if first == int64(1<<62) {
+					ok = false // never unlocked in this run
+					break
+				}
+				if first > lastUnlock {
+					lastUnlock = first
+				}
+			}
+			if !ok {
+				continue
+			}
+			var shared []*Exec
+			for _, x := range execs {
+				if x.Hook != h.Path || x.Fail || x.EndSeq == 0 || x.StartSeq >= lastUnlock {
+					continue
+				}
+				for _, c := range x.Ctxs {
+					if c.Type == "Group" && fmt.Sprint(c.Raw["groupName"]) == g {
+						shared = append(shared, x)
+						break
+					}
+				}
+			}
+			simrt.Count("probe:group-synchronization-checked")
+			if len(shared) > 1 {
+				var ns []string
+				for _, x := range shared {
+					ns = append(ns, fmt.Sprintf("#%d {%s}", x.N, x.Ctxs[0].String()))
+				}
+				r.e.Viol("C06", "U7", "group-synchronization-not-shared", "hook %s: the bindings %v of group %q received %d successful Group executions before all of them were unlocked (%s), they share one", h.Path, members, g, len(shared), strings.Join(ns, ", "))
 			}
 		}
 	}
